@@ -268,6 +268,7 @@ fn build_registry() -> Vec<PropDef> {
 pub fn check_known_witness(prop: &str, k: &Known) -> Result<bool, String> {
     match (prop, k.key.as_str()) {
         ("C15", c15::K1_KEY) => c15::k1_witness(&k.witness),
+        ("C15", c15::K2_KEY) | ("C15", c15::K3_KEY) => c15::k23_witness(&k.witness),
         ("C10", c15::K1_KEY) => c10::k1_witness(&k.witness),
         _ => Err("no witness executor for this property/key".into()),
     }
